@@ -18,6 +18,8 @@ import warnings
 import zipfile
 from unittest import mock
 
+from twisted.internet import defer, task
+
 from wormhole.cli import cmd_receive
 from wormhole.timing import DebugTiming
 
@@ -120,6 +122,40 @@ def recv_case(rng, name=None, output=None, accept=None, pre=None, mode=None, lev
     return c
 
 
+def go_case(rng, **kw):
+    """a whole `Receiver.go()` run (welcome, code, key, transit message, offer, transfer, write) against a scripted
+    sender; `fault`: what goes wrong after the offer was accepted"""
+    c = recv_case(rng, **kw)
+    c["kind"] = "go"
+    c["level"] = "go"
+    c["fault"] = rng.choice(["none", "none", "none", "dropped", "dropped", "badzip"])
+    return c
+
+
+def go_corpus(rng):
+    out = []
+    # refusal at the prompt / by _decide_destname / failure mid-way, on destinations that are existing directories
+    for nm, o, md, ans, fault in itertools.product(["a", "a/", "x/..", "x/.", "sub/a"], ["dir", "dir_slash", "dir_up", "unset"],
+                                                   ["file", "dir"], ["n", "", "y"], ["none", "dropped"]):
+        c = go_case(rng, name=nm, output=o, accept=False, pre="dir", mode=md)
+        c.update(answer=ans, fault=fault, zipmode="zipfile/deflated")
+        if md == "dir":
+            c["members"] = [["inner.txt", 0o600], ["sub/x", 0o644]]
+        out.append(c)
+    # the configuration matrix, every failure kind
+    answers = itertools.cycle(["y", "n", "", "Y", "no"])
+    faults = itertools.cycle(["none", "dropped", "none", "badzip", "dropped"])
+    for nm, o, acc, pre, md in itertools.product(["a", "../a", "..", "x/"], MATRIX_OUTPUTS, [True, False],
+                                                 ["none", "file", "dir"], ["file", "dir"]):
+        c = go_case(rng, name=nm, output=o, accept=acc, pre=pre, mode=md)
+        c.update(answer=next(answers), fault=next(faults), zipmode="zipfile/deflated")
+        if md == "dir":
+            c["members"] = [["inner.txt", 0o600], ["../keep.txt", 0o600], ["sub/x", 0o644]] if c["fault"] == "none" and nm == "a" \
+                else [["inner.txt", 0o600], ["sub/x", 0o644]]
+        out.append(c)
+    return out
+
+
 def cases(rng, tier):
     out = []
     # --- corpus -------------------------------------------------------------------------------
@@ -149,12 +185,21 @@ def cases(rng, tier):
     out.append(dict(kind="zip", members=[["ok", 0o644], ["../{DESTBASE}-plus/haha", 0o600], ["/etc/passwd", 0o644], ["../haha", 0o600],
                                          ["haha//root", 0o5], ["../keep.txt", 0o600], ["{DEST}/x", 0o600], ["a/../b", 0o600],
                                          ["sub/", 0o700], ["sub/f", 0], ["", 0o600], [".", 0o600], ["..", 0o600]]))
+    # symlink-mode members (body = link text): a chain of links each of which is lexically inside the destination
+    out.append(dict(kind="zip", members=[["x/y/l1", 0o120777, ".."], ["x/y/l1/l2", 0o120777, ".."], ["x/y/l1/l2/l3", 0o120777, ".."], ["x/y/l1/l2/l3/keep.txt", 0o644], ["x/y/l1/l2/l3/l4", 0o120777, ".."], ["x/y/l1/l2/l3/l4/sibling.txt", 0o600], ["lnk", 0o120777, "../keep.txt"], ["lnk2", 0o120777, "/etc/hostname"]]))
+    for acc in (True, False):
+        c = recv_case(rng, name="a", output="unset", accept=acc, pre="none", mode="dir", level="full")
+        c.update(answer="y", zipmode="zipfile/deflated", members=[["x/y/l1", 0o120777, ".."], ["x/y/l1/l2", 0o120777, ".."], ["x/y/l1/l2/l3", 0o120777, ".."], ["x/y/l1/l2/l3/keep.txt", 0o644], ["x/y/l1/l2/l3/l4", 0o120777, ".."], ["x/y/l1/l2/l3/l4/sibling.txt", 0o600], ["lnk", 0o120777, "../keep.txt"], ["lnk2", 0o120777, "/etc/hostname"]])
+        out.append(c)
     out.append(dict(kind="path", names=["", "/", "//", "///", "//a", "///a", "a//b/", "../..", "/..", "//..", "a/./../..",
                                         "a/b/../../..", ".", "./", "a\\b/c", "\u00e4/../x", "/a/", "//a/..", "a/" + LONG]))
+    out.extend(go_corpus(rng))
     # --- generated ----------------------------------------------------------------------------
     n = 1 if tier == "quick" else 25
     for _ in range(450 * n):
         out.append(recv_case(rng))
+    for _ in range(250 * n):
+        out.append(go_case(rng))
     for _ in range(60 * n):
         out.append(dict(kind="zip", members=gen_members(rng) + gen_members(rng)))
     for _ in range(40 * n):
@@ -288,10 +333,13 @@ def build_zip(members):
     with warnings.catch_warnings():
         warnings.simplefilter("ignore")
         with zipfile.ZipFile(buf, "w", zipfile.ZIP_DEFLATED) as zf:
-            for i, (nm, perm) in enumerate(members):
+            for i, mem in enumerate(members):
+                nm, perm = mem[0], mem[1]
                 zi = zipfile.ZipInfo(filename=nm)
+                zi.create_system = 3
                 zi.external_attr = (perm & 0xFFFF) << 16
-                zf.writestr(zi, b"" if nm.endswith("/") else b"member %d" % i)
+                body = mem[2].encode("utf8") if len(mem) > 2 else (b"" if nm.endswith("/") else b"member %d" % i)
+                zf.writestr(zi, body)
     return buf.getvalue()
 
 
@@ -417,17 +465,9 @@ def kinds(reg):
     return " ".join(kind_of(p) for p in reg)
 
 
-def run_recv(case):
-    sb = Sandbox()
-    try:
-        return _run_recv(case, sb)
-    finally:
-        sb.cleanup()
-
-
-def _run_recv(case, sb):
-    tags = [f"mode:{case['mode']}", f"output:{case['output']}", f"pre:{case['pre']}", f"accept:{case['accept']}",
-            f"level:{case['level']}"]
+def prepare(case, sb):
+    """puts --output-file's target, the pre-existing destination, the decoys and a pre-existing <dest>.tmp into the
+    sandbox as the case says; returns what the oracle needs to know about it"""
     name = sb.subst(case["name"])
     spelling, make = OUTPUTS[case["output"]]
     out_set = spelling is not None
@@ -466,6 +506,25 @@ def _run_recv(case, sb):
         else:
             sb.put_dir(would_be + ".tmp")
 
+    return dict(name=name, out_set=out_set, out_file=out_file, out_abs=out_abs, out_was_dir=out_was_dir,
+                would_be=would_be, placeable=placeable)
+
+
+def run_recv(case):
+    sb = Sandbox()
+    try:
+        return _run_recv(case, sb)
+    finally:
+        sb.cleanup()
+
+
+def _run_recv(case, sb):
+    tags = [f"mode:{case['mode']}", f"output:{case['output']}", f"pre:{case['pre']}", f"accept:{case['accept']}",
+            f"level:{case['level']}"]
+    P = prepare(case, sb)
+    name, out_set, out_file, out_abs, out_was_dir = P['name'], P['out_set'], P['out_file'], P['out_abs'], P['out_was_dir']
+    would_be, placeable = P['would_be'], P['placeable']
+
     lines, exp = [], []
     reg = register(sb, lines, exp)
     proc = os.getcwd()
@@ -485,7 +544,7 @@ def _run_recv(case, sb):
     spy = Spy()
     clean = os_clean(name) and (out_file is None or os_clean(out_file))
     f = None
-    members = [[sb.subst(m, would_be if placeable else sb.cwd + "/nodest"), perm] for m, perm in case.get("members", [])]
+    members = [[sb.subst(m[0], would_be if placeable else sb.cwd + "/nodest")] + list(m[1:]) for m in case.get("members", [])]
     with mock.patch.object(cmd_receive, "input", fake_input, create=True), \
             contextlib.redirect_stderr(io.StringIO()), spy.installed():
         try:
@@ -605,8 +664,8 @@ def run_zip(case):
         os.mkdir(dest)
         sb.put_dir(dest + "-plus")
         sb.put_file(os.path.join(dest + "-plus", "haha"), b"sibling whose name extends ours")
-        members = [[sb.subst(m, dest), perm] for m, perm in case["members"]]
-        members = [[m, p] for m, p in members if os_clean(m)]
+        members = [[sb.subst(m[0], dest)] + list(m[1:]) for m in case["members"]]
+        members = [m for m in members if os_clean(m[0])]
         zbytes = build_zip(members)
         before = sb.snapshot()
         args = make_args(sb, None, True)
@@ -650,6 +709,195 @@ def run_zip(case):
         sb.cleanup()
 
 
+# ---------------------------------------------------------------------------
+# the whole command: Receiver.go() -> _go() -> _parse_offer() with its exception handling
+
+class FakeWormhole:
+    """what wormhole.create() returns, with the key exchange already done and the sender's messages scripted"""
+
+    def __init__(self, inbound):
+        self._inbound = [cmd_receive.dict_to_bytes(m) for m in inbound]
+        self.sent = []
+        self._code = None
+
+    def get_welcome(self):
+        return defer.succeed({})
+
+    def set_code(self, code):
+        self._code = code
+
+    def get_code(self):
+        return defer.succeed(self._code)
+
+    def get_unverified_key(self):
+        return defer.succeed(b"k" * 32)
+
+    def get_verifier(self):
+        return defer.succeed(b"v" * 32)
+
+    def derive_key(self, purpose, length):
+        return b"t" * length
+
+    def get_message(self):
+        if self._inbound:
+            return defer.succeed(self._inbound.pop(0))
+        return defer.Deferred()
+
+    def send_message(self, data):
+        self.sent.append(cmd_receive.bytes_to_dict(data))
+
+    def close(self):
+        return defer.succeed("happy")
+
+
+class FakeRecordPipe:
+    def __init__(self, payload):
+        self.payload = payload
+
+    def describe(self):
+        return "in-memory"
+
+    def writeToFile(self, f, expected, progress, hasher):
+        data = self.payload[:expected]
+        f.write(data)
+        progress(len(data))
+        hasher(data)
+        return defer.succeed(len(data))
+
+    def send_record(self, record):
+        return defer.succeed(None)
+
+    def close(self):
+        return defer.succeed(None)
+
+
+def fake_transit_receiver(payload):
+    class FakeTransitReceiver:
+        TRANSIT_KEY_LENGTH = 32
+
+        def __init__(self, *a, **kw):
+            pass
+
+        def set_transit_key(self, key):
+            pass
+
+        def add_connection_hints(self, hints):
+            pass
+
+        def get_connection_abilities(self):
+            return [{"type": "direct-tcp-v1"}]
+
+        def get_connection_hints(self):
+            return defer.succeed([])
+
+        def connect(self):
+            return defer.succeed(FakeRecordPipe(payload))
+
+    return FakeTransitReceiver
+
+
+def run_go(case):
+    sb = Sandbox()
+    try:
+        return _run_go(case, sb)
+    finally:
+        sb.cleanup()
+
+
+def _run_go(case, sb):
+    fault = case.get("fault", "none")
+    tags = ["go", f"mode:{case['mode']}", f"output:{case['output']}", f"pre:{case['pre']}", f"accept:{case['accept']}",
+            f"fault:{fault}"]
+    P = prepare(case, sb)
+    name, out_set, out_file, out_abs, out_was_dir = P['name'], P['out_set'], P['out_file'], P['out_abs'], P['out_was_dir']
+    would_be, placeable = P['would_be'], P['placeable']
+    lines, exp = [], []
+    reg = register(sb, lines, exp)
+    proc = os.getcwd()
+    lines.append(f"args {hx(sb.cwd)} {hx(out_file or '')} {1 if case['accept'] else 0} {hx(case['answer'])} {hx(proc)}")
+    exp.append("ok")
+
+    members = [[sb.subst(m[0], would_be if placeable else sb.cwd + "/nodest")] + list(m[1:]) for m in case.get("members", [])]
+    if case["mode"] == "file":
+        body = b"new data!"
+        offer = {"file": {"filename": name, "filesize": len(body)}}
+        payload = body[:4] if fault == "dropped" else body
+    else:
+        body = build_zip(members)
+        offer = {"directory": {"mode": case["zipmode"], "dirname": name, "zipsize": len(body),
+                               "numbytes": 9 * len(members), "numfiles": len(members)}}
+        payload = body[:-3] if fault == "dropped" else (b"\x00" * len(body) if fault == "badzip" else body)
+    dropped = fault == "dropped"
+
+    before = sb.snapshot()
+    args = make_args(sb, out_file, case["accept"])
+    args.code = "1-abc"
+    args.zeromode = False
+    args.allocate = False
+    args.code_length = 2
+    args.appid = None
+    args.debug_state = None
+    args.listen = False
+    args.transit_helper = ""
+    args.launch_tor = False
+    args.tor_control_port = None
+    w = FakeWormhole([{"transit": {"abilities-v1": [{"type": "direct-tcp-v1"}], "hints-v1": []}}, {"offer": offer}])
+    r = cmd_receive.Receiver(args, task.Clock())
+    fake_input = mock.Mock(side_effect=lambda prompt="": case["answer"])
+    permission = []
+    real_send_permission = cmd_receive.Receiver._send_permission
+
+    def send_permission(self, w_):
+        permission.append(True)
+        return real_send_permission(self, w_)
+
+    spy = Spy()
+    result = []
+    with warnings.catch_warnings():
+        warnings.simplefilter("ignore")
+        with mock.patch.object(cmd_receive, "create", return_value=w), \
+                mock.patch.object(cmd_receive, "TransitReceiver", fake_transit_receiver(payload)), \
+                mock.patch.object(cmd_receive, "input", fake_input, create=True), \
+                mock.patch.object(cmd_receive.Receiver, "_send_permission", send_permission), \
+                contextlib.redirect_stderr(io.StringIO()), spy.installed():
+            d = r.go()
+            d.addCallbacks(lambda _: result.append(None), lambda f: result.append(f.value))
+    if not result:
+        raise RuntimeError("Receiver.go() did not finish synchronously")
+    final = result[0]
+    outcome = "ok" if final is None else canon_exc(final)
+    tags.append("go:" + outcome + (":after-permission" if permission and final is not None else ""))
+    announced = getattr(r, "abs_destname", None)
+    succeeded = final is None
+    clean = os_clean(name) and (out_file is None or os_clean(out_file))
+    if clean:
+        if announced is not None:
+            for p in (announced, announced + ".tmp"):
+                if p not in reg and os_clean(p):
+                    reg.append(p)
+                    lines.append(f"watch {hx(p)}")
+                    exp.append("ok")
+        if case["mode"] == "file":
+            lines.append(f"offer_file {hx(name)} {1 if dropped else 0}")
+            exp.append((f"ok {hx(announced)}" if succeeded else outcome) + f" | {kinds(reg)}")
+        else:
+            # did the unpacking create the destination directory? (zipfile makes it before it writes a member)
+            extracted = bool(permission) and not dropped and bool(spy.extracts) and kind_of(announced) == "d"
+            lines.append(f"offer_dir {hx(case['zipmode'])} {hx(name)} {1 if dropped else 0} {1 if extracted else 0}")
+            if not permission:
+                res = outcome
+            elif dropped:
+                res = "TransferError"
+            else:
+                res = f"ok {hx(announced)}"      # what happened below the destination is the archive cases' business
+            exp.append(res + f" | {kinds(reg)}")
+    after = sb.snapshot()
+    viol = oracle(before, after, sb.cwd, out_abs, out_was_dir, out_set, name, announced, succeeded, not succeeded)
+    if viol:
+        tags.append("oracle:" + viol[0][0])
+    return Result(lines, exp, viol, tags, nontrivial=True)
+
+
 def run_case(case):
     k = case["kind"]
     if k == "path":
@@ -658,6 +906,8 @@ def run_case(case):
         return run_recv(case)
     if k == "zip":
         return run_zip(case)
+    if k == "go":
+        return run_go(case)
     raise ValueError(k)
 
 
@@ -674,13 +924,13 @@ def search(rng, seconds, seeds):
 
 
 def shrink(case):
-    if case.get("kind") == "recv":
+    if case.get("kind") in ("recv", "go"):
         ms = case.get("members") or []
         for i in range(len(ms)):
             c = dict(case)
             c["members"] = ms[:i] + ms[i + 1:]
             yield c
-        if case.get("level") != "full":
+        if case.get("level") not in ("full", "go"):
             return
         for simpler in (dict(output="unset"), dict(output="dir"), dict(accept=True), dict(pre="none"), dict(zipmode="zipfile/deflated")):
             if all(case.get(k) == v for k, v in simpler.items()):
